@@ -933,11 +933,17 @@ def run(rep):
     tot += ['# only a comment', 'maildir "%s/src" {\n\tmatch all flag new\n}\n# trailing comment without newline' % R, '#', '"', '/', 'x', 'x =', 'maildir']
     cells = [(p, k) for p in POSITIONS for k in KINDS]
     fam = family_process_cases(rep.tier)
+    bcases = confbytes.cases(rep.tier, 'process')
+    if rep.tier == 'quick':
+        # the process-level families cost ~70 ms of sandbox set-up each (serialised by the interpreter lock): the quick tier runs
+        # every third case, the third chosen by the seed (three consecutive seeds cover the families completely; thorough runs all)
+        fam = fam[rep.seed % 3::3]
+        bcases = bcases[rep.seed % 3::3]
     with cf.ThreadPoolExecutor(vlib.NCPU) as ex:
         matrix = list(ex.map(cell, cells))
         famres = list(ex.map(lambda jc: jc[0](tools, jc[1], rep.tier), fam))
         results = list(ex.map(accept, acc)) + list(ex.map(reject, rej)) + list(ex.map(total, tot)) + matrix
-    bres = pooled(tools, confbytes.cases(rep.tier, 'process'), bytecase)
+    bres = pooled(tools, bcases, bytecase)
     nfam = {}
     for r in famres:
         if r['problems']:
